@@ -44,4 +44,8 @@ def body (sigType pubAlgo hashAlgo : Nat) (hashed unhashed tag mpis : Bytes) : B
 def trailerInput (sigType pubAlgo hashAlgo : Nat) (hashed : Bytes) : Bytes :=
   [4, sigType, pubAlgo, hashAlgo, hashed.length / 256, hashed.length % 256] ++ hashed ++ [4, 0xff] ++ be32 (6 + hashed.length)
 
+/-- RFC 4880 §5.2.2: a version 3 signature packet body -/
+def bodyV3 (sigType created issuer pubAlgo hashAlgo g0 g1 : Nat) (mpis : Bytes) : Bytes :=
+  [3, 5, sigType] ++ be32 created ++ be64 issuer ++ [pubAlgo, hashAlgo, g0, g1] ++ mpis
+
 end WhatIs.Spec.Sig4
